@@ -221,10 +221,15 @@ def run(ctx, chk):
         st = ipp.new_state()
         me = ipp.arg_object(st, 'video')
         v = S(8, 'palette')
-        rs = ipp.run(fn, args_of(me, v), st)
+        rs = list(ipp.run(fn, args_of(me, v), st))
         bad = None
         table = None
         n = 0
+        # the paths may already be split by selector value (a shade table indexed by the selector): a selector value that
+        # is infeasible on one path is covered by another; the table is collected over all paths, then every colour of
+        # every path is compared with it
+        tb = {}
+        per_path = []
         for r in rs:
             if r.status != 'ok':
                 bad = bad or '%s can diverge (%s)' % (fn.split('::')[-1], r.status)
@@ -237,31 +242,34 @@ def run(ctx, chk):
             if any(t_ is None or not T.is_int(t_) for t_ in ents):
                 bad = bad or 'palette entries are not readable after the write'
                 continue
+            per_path.append((r, ents))
             # the shade table: what entry 0 becomes for each of the four 2-bit selectors
-            tb = []
             for sel in range(4):
                 e2 = r.state.env.copy()
-                if not e2.assume_eq(O(8, 'and', v, C(8, 3)), sel):
-                    tb.append(None)
-                else:
-                    tb.append(e2.const_of(ents[0]))
-                    if tb[-1] is None:
-                        tb[-1] = bvproof.const_diff_under(ents[0], C(8, 0), e2, 8)
-            if None in tb or len(set(tb)) != 4:
-                bad = bad or 'colour 0 does not select one of four distinct shades by bits 1..0 (%s)' % tb
-                continue
-            table = tb
-            for c_ in range(4):
-                sel_t = O(8, 'and', O(8, 'shr', v, C(8, 2 * c_)), C(8, 3))
-                for sel in range(4):
-                    e2 = r.state.env.copy()
-                    if e2.assume_eq(sel_t, sel):
-                        got = e2.const_of(ents[c_])
-                        if got is None:
-                            got = bvproof.const_diff_under(ents[c_], C(8, 0), e2, 8)
-                        if got != tb[sel]:
-                            bad = bad or 'colour %d with register bits %d..%d = %d gives shade %s, colour 0 gives %s for the same ' \
-                                'selector' % (c_, 2 * c_ + 1, 2 * c_, sel, got, tb[sel])
+                if not e2.assume_eq(O(8, 'and', v, C(8, 3)), sel) or not absint.feasible(e2):
+                    continue
+                got = e2.const_of(ents[0])
+                if got is None:
+                    got = bvproof.const_diff_under(ents[0], C(8, 0), e2, 8)
+                if got is None or tb.setdefault(sel, got) != got:
+                    bad = bad or 'colour 0 with register bits 1..0 = %d does not give one fixed shade (%s / %s)' % (
+                        sel, got, tb.get(sel))
+        if not bad and (sorted(tb) != [0, 1, 2, 3] or len(set(tb.values())) != 4):
+            bad = 'colour 0 does not select one of four distinct shades by bits 1..0 (%s)' % [tb.get(k_) for k_ in range(4)]
+        if not bad:
+            table = [tb[k_] for k_ in range(4)]
+            for r, ents in per_path:
+                for c_ in range(4):
+                    sel_t = O(8, 'and', O(8, 'shr', v, C(8, 2 * c_)), C(8, 3))
+                    for sel in range(4):
+                        e2 = r.state.env.copy()
+                        if e2.assume_eq(sel_t, sel) and absint.feasible(e2):
+                            got = e2.const_of(ents[c_])
+                            if got is None:
+                                got = bvproof.const_diff_under(ents[c_], C(8, 0), e2, 8)
+                            if got != tb[sel]:
+                                bad = bad or 'colour %d with register bits %d..%d = %d gives shade %s, colour 0 gives %s for ' \
+                                    'the same selector' % (c_, 2 * c_ + 1, 2 * c_, sel, got, tb[sel])
         if bad or not n:
             chk.fail('C15.4', key, '%s: %s' % (key, bad or 'no path'), file, None)
         else:
